@@ -345,14 +345,12 @@ func getBootEnv(variant string, eph bool) *bootEnv {
 }
 
 func runBoot(c BootCase, rec *h.Rec) error {
-	if !h.Thorough() {
-		// quick tier: one cheap case on shard 0 only (setup of the bootstrapping keys under -race dominates the cost);
-		// the property lives in the thorough tier
-		if os.Getenv("VERIF_SHARD") != "" && os.Getenv("VERIF_SHARD") != "0" {
-			rec.Class("skipped-in-quick-tier")
-			return nil
-		}
-		c.Many, c.Parallel, c.UseBefore = 1, false, false
+	if !h.Thorough() && os.Getenv("C10_BOOT_QUICK") == "" && os.Getenv("VERIF_REPLAY_FILE") == "" {
+		// The property lives in the thorough tier: generating bootstrapping keys under -race costs 1-3 minutes per
+		// process, which does not fit the quick-tier envelope. (C10_BOOT_QUICK=1 runs it in the quick tier; an explicit
+		// --replay of a bootstrapping case is always executed.)
+		rec.Class("skipped-in-quick-tier")
+		return nil
 	}
 	e := getBootEnv(c.Variant, c.Eph)
 	h.SeedRand(c.Seed)
